@@ -302,7 +302,7 @@ class Optimizer(object):
             )
 
         # check if regressor
-        if not is_regressor(base_estimator) and base_estimator is not None:
+        if base_estimator is not None and not is_regressor(base_estimator):
             raise ValueError("%s has to be a regressor." % base_estimator)
 
         # treat per second acqusition function specially
